@@ -37,6 +37,21 @@ def bounded_task():
     return Task(f"{PROP}.Bd.project", PROP, "real pipeline", run)
 
 
+def retime_task():
+    def run():
+        from bounded import retime
+        t0 = time.time()
+        hit, info = retime.search(budget_s=90)
+        r = OR(id=f"{PROP}.Bd.regex.matching_time_on_pumped_lines", status=REFUTED if hit else PROVED, kind="Bd", role="bounded", target="every compiled pattern of the parsing modules",
+               desc="match and search of every pattern on statement lines with long identifiers followed by a text that makes the match fail: no catastrophic backtracking "
+                    "(a line on which one match does not return would hang the run)", bound=f"{(info or {}).get('patterns', '?')} patterns x {(info or {}).get('lines', '?')} pumped lines; "
+                    f"slowest single match {(info or {}).get('slowest_s', '?')} s", cases=(info or {}).get("lines", 0), seconds=time.time() - t0, backend="enumeration")
+        if hit:
+            r.replay, r.witness = hit, hit.get("input")
+        return [r]
+    return Task(f"{PROP}.Bd.regex", PROP, "regex time", run)
+
+
 def _handler():
     from bounded import c20
     c = containment.handler_block(PROP)
@@ -57,7 +72,7 @@ def build(tier, seed):
     # termination: the loop variants of the scanners / readers are part of their contracts (re-used here under C20's id)
     tasks = [Task(f"{PROP}.S.containment", PROP, "exception containment", _replay(containment.obligations)),
              a_task(PROP, _mk(scanners.unterminated)), a_task(PROP, _mk(scanners.quote_split)), a_task(PROP, _mk(scanners.paren_split)), a_task(PROP, _mk(scanners.get_parens)),
-             a_task(PROP, _mk(docstrings.read_docstring)), a_task(PROP, _mk(readerblocks.continuation)), a_task(PROP, _handler), bounded_task()]
+             a_task(PROP, _mk(docstrings.read_docstring)), a_task(PROP, _mk(readerblocks.continuation)), a_task(PROP, _handler), bounded_task(), retime_task()]
     meta = {
         "trusted_base": TRUSTED_BASE,
         "assumptions": PYVC_ASSUMPTIONS + [
@@ -68,7 +83,7 @@ def build(tier, seed):
         "functions_under_contract": fn_meta([("ford.fortran_project", "Project._fortran_file", "AST-level exceptional frame"), ("ford.fortran_project", "Project.__init__", "AST-level handler shape; block contract on the handler body (message building kept for its safety obligations)"),
                                              ("ford.reader", "_contains_unterminated_string", None), ("ford.utils", "quote_split", None), ("ford.utils", "paren_split", None),
                                              ("ford.utils", "get_parens", None), ("ford.sourceform", "read_docstring", None)]),
-        "unverified_surroundings": ["equality of the other files' documentation is a differential statement: bounded stand-in only", "regex matching time (no ambiguity analysis was built)",
+        "unverified_surroundings": ["equality of the other files' documentation is a differential statement: bounded stand-in only", "regex matching time: no static ambiguity analysis; a bounded probe runs every pattern on pumped lines",
                                     "print_error with dbg on reports and carries on parsing the file (the file is then kept, not skipped)"],
         "explanation": "If parsing a file raises, nothing of it has been registered in the project and the per-file handler reports and continues; running out of input inside a container "
                        "raises; the scanning loops terminate (variants).",
